@@ -1,5 +1,5 @@
 \* (E) exhaustive, thorough: all command sequences of length <= 7 over 6 globals + 2 locals, spread request table
-SPECIFICATION Spec
+SPECIFICATION SpecE
 CONSTANTS
   Globals = {"G0", "G1", "G2", "G3", "G4", "G5"}
   Locals = {"LA", "LB"}
